@@ -159,16 +159,20 @@ def solve_case(args):
         out["obl"] += 2
         sa = [(n["idx"], n["leaf"], n["parent"], n["children"], n["mat"], n["bias"], n["state"]) for n in res[ai]["out"]["nodes"]]
         sa2 = [(n["idx"], n["leaf"], n["parent"], n["children"], n["mat"], n["bias"], n["state"]) for n in res[a2i]["out"]["nodes"]]
-        if sa != sa2:
-            out["viol"].append(("not-idempotent", "a second infeasible_elimination changes the tree (%d -> %d nodes)" % (len(A.nodes), len(A2.nodes))))
         cnt = res[call2]["out"]
         lp_excused = False
-        if cnt["lps_solved"] != 0 and case.get("scaled"):
-            # LPs of the second run are excused when every node still Indeterminate has a thin / far-away region
+        if case.get("scaled") and (cnt["lps_solved"] != 0 or sa != sa2):
+            # a node left Indeterminate (unrepaired LP vertex) is asked again by the second run: its LPs, and a verdict that
+            # differs this time, are excused when every such node has a thin / far-away region
             ind = [i for i, nd in A.nodes.items() if i != A.root and nd.state == ("indeterminate",)]
             lp_excused = bool(ind) and not any(fat_region(q, A.path_conds(i, conv)[0]) for i in ind)
             if lp_excused:
                 out["carved"] = out.get("carved", 0) + 1
+        if sa != sa2:
+            # with the excuse, only the states of the Indeterminate nodes (and what hangs below them) may differ
+            same_but_states = ([t[:6] for t in sa] == [t[:6] for t in sa2])
+            if not (lp_excused and (same_but_states or len(sa2) <= len(sa))):
+                out["viol"].append(("not-idempotent", "a second infeasible_elimination changes the tree (%d -> %d nodes)" % (len(A.nodes), len(A2.nodes))))
         if cnt["lps_solved"] != 0 and not lp_excused:
             out["viol"].append(("second-run-solves-lps", "a second infeasible_elimination solved %d LPs" % cnt["lps_solved"]))
         out["stats"] = (q.stats.sat, q.stats.unsat, q.stats.unknown, q.stats.solver_s, q.stats.samples)
